@@ -9,7 +9,7 @@ theorem pin_consulted_on_every_connection (P : Params) (h : P.noSessionResumptio
   simp [pinConsulted, h]
 
 /-- Witness: with a session cache the second connection is accepted without looking at the certificate -/
-theorem resumed_session_witness : pinConsulted ⟨false, true, true, true, true, true, true⟩ 1 = false := by decide
+theorem resumed_session_witness : pinConsulted ⟨false, true, true, true, true, true, true, true, true, true, true⟩ 1 = false := by decide
 
 /-- **C12 / C17 — the process gets the list `Start` assembled**, whatever a rewriting runner would have done;
 in particular go-plugin's own value of a variable, appended last, is the effective one. -/
@@ -25,7 +25,7 @@ theorem own_value_effective (P : Params) (h : P.runnerLeavesEnv = true) (rewrite
 
 /-- Witness: a runner that keeps the FIRST entry of every key hands the plugin the inherited certificate -/
 theorem keep_first_witness :
-    effective (childEnv ⟨true, false, true, true, true, true, true⟩ (fun l => l.take 1) [("PLUGIN_CLIENT_CERT", "inherited"), ("PLUGIN_CLIENT_CERT", "own")])
+    effective (childEnv ⟨true, false, true, true, true, true, true, true, true, true, true⟩ (fun l => l.take 1) [("PLUGIN_CLIENT_CERT", "inherited"), ("PLUGIN_CLIENT_CERT", "own")])
       "PLUGIN_CLIENT_CERT" = some "inherited" := by decide
 
 /-- **C11 — a slow sync writer loses nothing**: however long the host's writer takes, the chunk is delivered. -/
@@ -33,7 +33,7 @@ theorem slow_writer_loses_nothing (P : Params) (h : P.noWriteDeadlines = true) (
   simp [chunkDelivered, h]
 
 /-- Witness: with a 2 s write deadline a writer held up for 3 s loses the chunk (and the copier) -/
-theorem write_deadline_witness : chunkDelivered ⟨true, true, false, true, true, true, true⟩ 2000 3000 = false := by decide
+theorem write_deadline_witness : chunkDelivered ⟨true, true, false, true, true, true, true, true, true, true, true⟩ 2000 3000 = false := by decide
 
 /-- **C07 — the host's brokered listeners live where the plugin can see them**: in the directory the client created for
 the custom runner. -/
@@ -41,7 +41,7 @@ theorem host_broker_uses_client_dir (P : Params) (h : P.brokerSharesSocketDir = 
   simp [hostBrokerDir, h]
 
 /-- Witness: built from a copy of the caller's configuration, the broker falls back to the process-wide directory -/
-theorem copied_config_witness : hostBrokerDir ⟨true, true, true, false, true, true, true⟩ (some "/shared/plugin-dir1") = none := by decide
+theorem copied_config_witness : hostBrokerDir ⟨true, true, true, false, true, true, true, true, true, true, true⟩ (some "/shared/plugin-dir1") = none := by decide
 
 /-- **C08 — the door is open when the announced stream arrives**, however the knock loop is scheduled. -/
 theorem door_open_at_arrival (P : Params) (h : P.doorBeforeAck = true) (doorDelayMs arriveAfterAckMs : Nat) :
@@ -49,7 +49,7 @@ theorem door_open_at_arrival (P : Params) (h : P.doorBeforeAck = true) (doorDela
   simp [doorOpenAtArrival, h]
 
 /-- Witness: acknowledging first, a knock loop held up for 150 ms lets a stream that arrives after 1 ms go to the main listener -/
-theorem ack_first_witness : doorOpenAtArrival ⟨true, true, true, true, false, true, true⟩ 150 1 = false := by decide
+theorem ack_first_witness : doorOpenAtArrival ⟨true, true, true, true, false, true, true, true, true, true, true⟩ 150 1 = false := by decide
 
 /-- **C05 — a start error of the command runner means that nothing was launched** (so there is nothing `Start` would have
 to kill on that path). -/
@@ -57,13 +57,44 @@ theorem start_error_means_not_launched (P : Params) (h : P.startErrorOnlyFromExe
   simp [launchedDespiteStartError, h]
 
 /-- Witness: a runner that reports an expired context after the fork leaves a process nobody kills -/
-theorem error_after_fork_witness : launchedDespiteStartError ⟨true, true, true, true, true, false, true⟩ = true := by decide
+theorem error_after_fork_witness : launchedDespiteStartError ⟨true, true, true, true, true, false, true, true, true, true, true⟩ = true := by decide
 
 /-- **C06 / C07 / C09 — the two parties of an id meet in ONE slot**, however close together they arrive. -/
 theorem one_slot_per_id (P : Params) (h : P.slotLookupAtomic = true) (together : Bool) : slotsAfterRendezvous P together = 1 := by
   simp [slotsAfterRendezvous, h]
 
 /-- Witness: look up, unlock, allocate, lock, store — an accept and a dial arriving together end up with a slot each -/
-theorem check_then_insert_witness : slotsAfterRendezvous ⟨true, true, true, true, true, true, false⟩ true = 2 := by decide
+theorem check_then_insert_witness : slotsAfterRendezvous ⟨true, true, true, true, true, true, false, true, true, true, true⟩ true = 2 := by decide
+
+/-- **C01 — a command launch records the address exactly as it stands on the line.** -/
+theorem address_recorded_verbatim (P : Params) (h : P.translatorIdentity = true) (rewrite : String → String) (onLine : String) :
+    recordedAddr P rewrite onLine = onLine := by
+  simp [recordedAddr, h]
+
+/-- Witness: a translation that "cleans" the path records another address than the one announced -/
+theorem cleaned_path_witness :
+    recordedAddr ⟨true, true, true, true, true, true, true, false, true, true, true⟩ (fun _ => "/tmp/x/sock") "/tmp/x/./sock" ≠ "/tmp/x/./sock" := by decide
+
+/-- **C06 — dispensed ids and the plugin's own reservations never collide**: the outstanding ids are pairwise distinct. -/
+theorem dispense_ids_distinct (P : Params) (h : P.dispenseUsesBrokerIds = true) (d r : Nat) : (outstandingIds P d r).Nodup := by
+  simp [outstandingIds, h, List.nodup_range']
+
+/-- Witness: with a counter of its own, one dispense and one reservation are both number 1 -/
+theorem own_counter_witness : ¬ (outstandingIds ⟨true, true, true, true, true, true, true, true, false, true, true⟩ 1 1).Nodup := by decide
+
+/-- **C07 — a brokered server has the certificate the configuration supplies**, also when it comes from a callback. -/
+theorem brokered_server_has_cert (P : Params) (h : P.brokerServesWithGivenTLS = true) (certViaCallback : Bool) :
+    brokeredServerHasCert P certViaCallback = true := by
+  simp [brokeredServerHasCert, h]
+
+/-- Witness: a field-by-field "server-only" copy serves without a certificate -/
+theorem dropped_callback_witness : brokeredServerHasCert ⟨true, true, true, true, true, true, true, true, true, false, true⟩ true = false := by decide
+
+/-- **C07 — two sockets in one shared directory never get the same name.** -/
+theorem socket_names_never_collide (P : Params) (h : P.socketNamesFromCreateTemp = true) (k j : Nat) : socketNamesCanCollide P k j = false := by
+  simp [socketNamesCanCollide, h]
+
+/-- Witness: numbered per process, the host's first socket and the plugin's first socket are both `plugin1` -/
+theorem sequence_numbers_witness : socketNamesCanCollide ⟨true, true, true, true, true, true, true, true, true, true, false⟩ 1 1 = true := by decide
 
 end GoPlugin.Props.Hygiene
